@@ -695,6 +695,14 @@ class Exec:
             self.ctx.oblige("safety", st, ty.is_(recv.t, tag), line, "str method on union value")
             recv = V(STR, ty.val(recv.t, tag))
             ty = STR
+        if isinstance(ty, UnionT):
+            # a method that exactly one alternative's type declares: the value must be that alternative (safety obligation)
+            owners = [(tag, alt) for tag, alt in ty.alts.items() if alt is not None and name in (getattr(alt, "methods", None) or {})]
+            if len(owners) == 1:
+                tag, alt = owners[0]
+                self.ctx.oblige("safety", st, ty.is_(recv.t, tag), line, "method .%s on a union value that is not a %s" % (name, alt))
+                recv = V(alt, ty.val(recv.t, tag))
+                ty = alt
         meths = getattr(ty, "methods", None)
         if meths and name in meths:
             return meths[name](self, recv, recv_node, args, kwargs, st, node)
@@ -788,6 +796,11 @@ class Exec:
         if name == "replace" and len(args) == 2:
             return V(STR, z3.Function("str_replace_all", z3.StringSort(), z3.StringSort(), z3.StringSort(), z3.StringSort())
                      (s, coerce(args[0], STR).t, coerce(args[1], STR).t))
+        if name == "count" and len(args) == 1:
+            # number of non-overlapping occurrences: left uninterpreted (A7), only its sign is used
+            c = z3.Function("str_count", z3.StringSort(), z3.StringSort(), z3.IntSort())(s, coerce(args[0], STR).t)
+            st.assume(c >= 0)
+            return V(INT, c)
         if name == "join":
             a = lift(args[0])
             if isinstance(a, V) and isinstance(a.ty, SeqT) and a.ty.elem is STR:
